@@ -112,6 +112,7 @@ type RaftNode struct {
 
 	balloon     *balloon.Balloon // Balloon's finite state machine
 	state       *fsmState
+	applyMu     sync.RWMutex            // held for writing while an insertion is computed and persisted, for reading by queries
 	snapshotsCh chan *protocol.Snapshot // channel to publish snapshots
 
 	hasherF     func() hashing.Hasher
